@@ -1140,7 +1140,8 @@ def _noparens(sql):
 def population_program(rng):
     knobs = gen.default_knobs(rng, PROP)
     knobs.update({"nops": rng.randint(2, 6), "p_stmt": 1.0, "focus": rng.choice(["qb", "qb", "setop", "ddl"]),
-                  "p_new": 0.5, "p_leaf": 0.0, "depth": rng.choice([2, 3, 4]), "select_subqueries_only": True})
+                  "p_new": 0.5, "p_leaf": 0.0, "depth": rng.choice([2, 3, 4]), "select_subqueries_only": True,
+                  "no_star_leaf": True})  # a star as an operand (x / *) is no expression and spells a comment opener
     if rng.random() < 0.6:
         # one dialect and many by-reference arguments: SELECTs of the heap embedded in parents of their own class
         knobs["qcls"] = [rng.choice(QCLS + ["SQLLiteQuery", "SQLLiteQuery"])]
@@ -1159,6 +1160,11 @@ def population_program(rng):
              "a": [F(TC, "x", alias=rng.choice([None, "k1"])), F(TC, "y")]}
         if rng.random() < 0.6:
             q = {"t": "meth", "x": q, "m": "where", "a": [gg.crit(TC)]}
+        if rng.random() < 0.3:
+            # a numbered placeholder and an array: text that depends on the dialect the statement is rendered in
+            q = {"t": "meth", "x": q, "m": "where", "a": [{"t": "bin", "op": "and",
+                 "l": {"t": "bin", "op": "eq", "l": F(TC, "z"), "r": {"t": "new", "c": "Parameter", "kw": {"idx": 1}}},
+                 "r": {"t": "bin", "op": "eq", "l": F(TC, "y"), "r": [1, 2]}}]}
         if rng.random() < 0.5:
             q = {"t": "meth", "x": q, "m": "with_", "a": [gg.subq(C0["name"]), "cte9"]}
         if rng.random() < 0.3:
@@ -1174,7 +1180,7 @@ def population_program(rng):
         i = sels[rng.randrange(len(sels))]
         S = {"t": "var", "i": i}
         C = {"t": "cls", "name": type(env.heap[i]).QUERY_CLS.__name__}
-        how = rng.choice(["select", "from", "join", "in", "values", "ctas", "insert_select"])
+        how = rng.choice(["select", "from", "join", "in", "values", "ctas", "insert_select", "setop_item"])
         if how == "select":
             x = {"t": "meth", "x": {"t": "meth", "x": C, "m": "from_", "a": [TB]}, "m": "select", "a": [F(TB, "x"), S]}
         elif how == "from":
@@ -1184,6 +1190,12 @@ def population_program(rng):
             sub = {"t": "meth", "x": S, "m": "as_", "a": ["sj"]}
             x = {"t": "meth", "x": {"t": "join", "x": {"t": "meth", "x": C, "m": "from_", "a": [TB]}, "item": sub, "how": None,
                                     "fin": "cross", "a": []}, "m": "select", "a": [F(TB, "x")]}
+        elif how == "setop_item":
+            # S as an operand of a set operation that is itself a select item of the parent
+            other = {"t": "meth", "x": {"t": "meth", "x": C, "m": "from_", "a": [TB]}, "m": "select",
+                     "a": [F(TB, "x")] * max(1, len(lib.state(env.heap[i]).get("_selects") or [1]))}
+            x = {"t": "meth", "x": {"t": "meth", "x": C, "m": "from_", "a": [TB]}, "m": "select",
+                 "a": [F(TB, "x"), {"t": "meth", "x": S, "m": rng.choice(["union", "union_all", "intersect"]), "a": [other]}]}
         elif how == "ctas":
             x = {"t": "meth", "x": {"t": "meth", "x": C, "m": "create_table", "a": ["t_new"]}, "m": "as_select", "a": [S]}
         elif how == "insert_select":
